@@ -216,7 +216,8 @@ def _install_id():
         # "every id already used in its slide-like part": the shape ids, and every other numeric @id the part carries
         # (p:cTn of an animation, a:cNvPr inside a locked canvas ...) - what python-pptx's own allocator looks at (//@id)
         ids = etree.XPath("//*[not(ancestor-or-self::p:oleObj)]/@id", namespaces={"p": "http://schemas.openxmlformats.org/presentationml/2006/main"})(root)
-        return {i for i in ids if i.isdigit()} | set(etree.XPath("//p:cNvPr[not(ancestor::p:oleObj)]/@id", namespaces={"p": "http://schemas.openxmlformats.org/presentationml/2006/main"})(root))
+        # (an id is a NUMBER: '003' and '3' are the same id, both valid lexical forms of xsd:unsignedInt)
+        return {str(int(i)) for i in ids if i.isdigit()} | {str(int(i)) if i.isdigit() else i for i in etree.XPath("//p:cNvPr[not(ancestor::p:oleObj)]/@id", namespaces={"p": "http://schemas.openxmlformats.org/presentationml/2006/main"})(root)}
 
     def wrap_shape_id(cls, label):
         orig = cls.__dict__["_next_shape_id"].fget
@@ -248,7 +249,7 @@ def _install_id():
     def _next_id(self):
         res = orig_sid(self)
         try:
-            used = {s.get("id") for s in self}
+            used = {str(int(s.get("id"))) if (s.get("id") or "").isdigit() else s.get("id") for s in self}
             SINK.count("M-ID:CT_SlideIdList._next_id")
             if str(res) in used or not (256 <= res <= 2147483647):
                 SINK.violation("C06", "slide-id-not-fresh-or-out-of-range", "_next_id returned %r with ids %s" % (res, sorted(used)[:8]))
